@@ -13,7 +13,7 @@ RULE = ("chains whose outputs mix OP_RETURN scripts (payload lengths 0..300 exha
         "carry the length: direct, PUSHDATA1/2/4; ASCII, multi-byte UTF-8, invalid UTF-8, embedded newlines/CR, empty) with every other "
         "script type, several per tx and block, x 8 coins x ranges; the real `opreturn` callback is run and stdout minus log lines is "
         "compared, as exact text and order, with the model (Bitcoin/testnet3: only valid UTF-8; fork coins: lossy). Plus the payload "
-        "families through the script-eval tool mode. One long run (more than 2^16 blocks in one process, three blk files) is compared with the model as well: thresholds of anything a run accumulates. distinct = (coin rules, push form, length class, payload class, printed?) signatures")
+        "families through the script-eval tool mode. One long run (more than 2^16 blocks in one process, three blk files) is compared with the model as well: thresholds of anything a run accumulates. Half of the chains end with identical transactions (coinbases with an OP_RETURN output among them) in consecutive and distant blocks. distinct = (coin rules, push form, length class, payload class, printed?) signatures")
 
 UTF8_SAMPLES = ["héllo wörld", "日本語のテキスト", "emoji \U0001F600\U0001F680", "Ελληνικά", "mixed ascii + ü + 漢", " nbsp", "tab\there",
                 # valid UTF-8 that looks like trouble: the replacement character itself (already-mangled text), its neighbours, noncharacters,
